@@ -24,6 +24,14 @@ def run(ck):
                'witness search: kalign() on an input and on a random respelling (case anywhere; T<->U for nucleotides), gap patterns must coincide and '
                'letters must be the respelled ones; all types. Non-trivial = respelling differs from the original and the alignment has a gap')
     cases = wc.make_cases(ck, 200 if ck.tier == 'quick' else 2500, small=True)
+    # long nucleotide sequences with the default type (no --type): any rule that picks parameters from the data must not tell an
+    # all-T spelling from one with U, nor upper from lower case (lengths on both sides of 1000)
+    for k in range(3 if ck.tier == 'quick' else 12):
+        L = ck.rng.choice([980, 1010, 1150, 1250])
+        root = gen.rand_seq(ck.rng, 'ACGT', L)
+        fam = [gen.mutate(ck.rng, root, 'ACGT', 12, 6) for _ in range(ck.rng.range(3, 6))]
+        cases.append({'kind': 'dna', 'family': 'long-default-type', 'seqs': fam, 'type': 5, 'pens': [gen.NG] * 3, 'threads': 1})
+        ck.count('family:nucleotide sequences around 1000 residues, default type')
     lines, meta, plines = [], [], []
     for c in cases:
         seqs = [s for s in c['seqs'] if s]
